@@ -357,6 +357,26 @@ def run(ctx):
             continue
         jobs.append((5000 + k, 0, req, {"transport": ["grpc+rest", "grpc"][k], "params": [], "yaml": None, "ads": False}, [], ["Others"],
                      ["only-sibling-sub-packages-sharing-leading-letters"]))
+    # a service two levels below the versioned package whose intermediate level owns no proto file
+    for k in range(2):
+        root_f = File("acme/vault/v1/vault.proto", "acme.vault.v1", deps=list(apigen.STD_DEPS))
+        sec = root_f.message("Secret"); sec.field("name", 1, "string")
+        gq = root_f.message("GetSecretRequest"); gq.field("name", 1, "string")
+        sv0 = root_f.service("Vault", host="vault.example.com")
+        sv0.rpc("GetSecret", gq.fqn, sec.fqn, http=("get", "/v1/{name=secrets/*}"), sigs=["name"])
+        deep = File("acme/vault/v1/internal/admin/admin.proto", "acme.vault.v1.internal.admin", deps=list(apigen.STD_DEPS) + [root_f.proto.name])
+        rq = deep.message("RotateKeysRequest"); rq.field("name", 1, "string").field("secret", 2, sec.fqn)
+        rp = deep.message("RotateKeysResponse"); rp.field("rotated", 1, "int32")
+        sv1 = deep.service("Admin", host="vault.example.com")
+        sv1.rpc("RotateKeys", rq.fqn, rp.fqn, http=("post", "/v1/{name=secrets/*}:rotate"), body="*", sigs=["name"])
+        files = [root_f, deep] if k == 0 else [deep, root_f]
+        try:
+            req = apigen.request([root_f, deep]) if k == 0 else apigen.request([root_f, deep], to_generate=[deep.proto.name, root_f.proto.name])
+        except (apigen.Invalid, TypeError):
+            ctx.features["invalid-candidate"] += 1
+            continue
+        jobs.append((5100 + k, 0, req, {"transport": ["grpc+rest", "grpc"][k], "params": ["metadata"] if k else [], "yaml": None, "ads": False}, [], ["Vault", "Admin"],
+                     ["sub-package-below-an-empty-intermediate-level"]))
     # a dependency package that shares a textual prefix with the API package (foo.v1beta1 used by foo.v1); the library is
     # given its own namespace so that the dependency's pb2 package does not sit inside the emitted unversioned package
     for k, (tpkg, dpkg) in enumerate([("google.example.v1", "google.example.v1beta1"), ("acme.things.v2", "acme.things.v2alpha")]):
